@@ -63,12 +63,13 @@ def replay(w):
             import fast_ticc
             nt, inp = w['notes'], w.get('inputs') or {}
             T, K, b = int(nt['T']), int(nt['K']), flt(inp.get('b', 0))
-            X = np.array([[_data_pattern(i, 0)] for i in range(T)])
-            kw = dict(window_size=1, num_clusters=K, iteration_limit=1, min_cluster_size=1, sparsity_weight=0.1,
+            W = int(nt.get('W', 1))
+            X = np.array([[_data_pattern(i, 0)] for i in range(T + W - 1)])
+            kw = dict(window_size=W, num_clusters=K, iteration_limit=1, min_cluster_size=1, sparsity_weight=0.1,
                       label_switching_cost=b)
-            with Scripted(inp, K, 1, mean_pattern=_mean_pattern):
+            with Scripted(inp, K, W, mean_pattern=_mean_pattern):
                 j = fast_ticc.ticc_joint_labels([X], **kw)
-            with Scripted(inp, K, 1, mean_pattern=_mean_pattern):
+            with Scripted(inp, K, W, mean_pattern=_mean_pattern):
                 s = fast_ticc.ticc_labels(X, **kw)
             same = list(j.point_labels[0]) == list(s.point_labels) and close(j.label_assignment_cost, s.label_assignment_cost)
             return {'reproduced': not same, 'signature': None if same else 'joint-of-one-series-differs-from-single',
